@@ -298,6 +298,9 @@ class PyCodegen(Stringifier):
           <target> = <expr> [<comment>]
         """
         lhs = self.visit(o.lhs, **kwargs)
+        if isinstance(o.lhs, sym.Array) and not o.lhs.dimensions:
+            # Whole-array assignment: update the array in place instead of re-binding the name
+            lhs += '[...]'
         rhs = self.visit(o.rhs, **kwargs)
         comment = None
         if o.comment:
